@@ -8,6 +8,9 @@ import orswot_abs
 
 CONFIGS = ['prod']
 EXPLANATION = (
+    'SEM (primary): the per-key transfer functions of insert_with_source / delete_with_source over the 7 abstract inputs (key absent / live / tombstoned, s'
+    'tamp older / equal / newer) equal the last-write-wins register (insert wins a tie; returned flag = state changed; version gate can refuse); VSEM: the '
+    'per-source stamp is a max-register. Structural fallback: '
     'Decided clauses: X a key is never live and tombstoned at once (a new stamp is stored in one map only after the key was removed from the other); D no unguarded drop — a timestamp removed from its map is re-inserted, joined, or dropped only on an edge where it is the smaller one; B no blind overwrite — a timestamp written into a map slot with `insert` competed with what the slot held; L monotone LWW guards in insert_with_source / delete_with_source / try_update_max_stamp and their '
     'and_modify closures (stored operand is the greater on every guard edge); T1 the order is the derived order of the single '
     'packed u64 word (layout checked bit-exactly under C10.E1); R the returned flag is set exactly where the entries/dead map '
